@@ -11,6 +11,7 @@ From Coq Require Import NArith Bool.
 From RV Require Import Ingress.IngressModel Rib.RibModel Bmp.BmpModel.
 From RV Require Import Filter.FilterLang Filter.FilterGlue Filter.FilterUnits Filter.FilterProofs.
 From RV Require Pipe.PipeModel E2e.E2eModel E2e.E2eProofs.
+From RV Require Import Filter.FilterFetch Filter.FilterFetchProofs.
 Local Open Scope N_scope.
 
 (* ---- the verdict decides the outcome ---- *)
@@ -397,6 +398,45 @@ Theorem C10_rejected_prefix_never_stored : forall lg s0 h,
      E2eModel.script_rejects (E2eModel.ru_filter r) (k_pfx k) = false).
 Proof. exact E2eProofs.rejected_prefix_never_stored. Qed.
 Print Assumptions C10_rejected_prefix_never_stored.
+
+(* ---- how a unit gets its filter (Filter/FilterFetch.v): the units of one load fetch their function by name from
+   the one mutex-protected compiled script; [frun false look (finit names) sched] = the code (lock()), k units wanting
+   the functions [names], under the schedule [sched] of unit moves and of moves of anything else that may hold the
+   mutex; [frun true ..] = the try_lock().ok()? variant. Tied to the code by the `e2e` engine (op FH: a thread of the
+   harness holds the real mutex while the manager starts the units of a load). ---- *)
+
+(* every unit whose configuration names a filter ends up with that filter, whatever the interleaving: a unit that
+   has finished fetching holds exactly what the script has under its name - never "no filter" when there is one *)
+Theorem C10_unit_gets_its_filter_whatever_the_interleaving :
+  forall (F : Type) (look : N -> option F) names sched i n f,
+    fs_units (frun false look (finit names) sched) !! i = Some (UDone n f) ->
+    names !! i = Some n /\ f = look n.
+Proof. exact (@fetch_safe). Qed.
+Print Assumptions C10_unit_gets_its_filter_whatever_the_interleaving.
+
+(* and every unit gets there: no move lengthens what is left, and unless everybody has finished or something else
+   holds the mutex some unit can move and strictly shortens it (no deadlock; any fair schedule finishes) *)
+Theorem C10_fetch_no_deadlock :
+  forall (F : Type) (look : N -> option F) (s : fetchst F),
+    (forall x, (fmeasure (fstep false look s x) <= fmeasure s)%nat) /\
+    (fs_ext s = false -> ~ all_done s -> exists i, (fmeasure (fstep false look s (SUnit i)) < fmeasure s)%nat) /\
+    (fmeasure s = 0%nat -> all_done s).
+Proof. exact (fun F look s => conj (fstep_le look s) (conj (fetch_progress look s) (measure_done s))). Qed.
+Print Assumptions C10_fetch_no_deadlock.
+
+(* with try_lock().ok()? a unit that looks while another one - or anything else - holds the mutex runs without a
+   filter although its script has one; alone it is indistinguishable from lock() *)
+Theorem C10_try_lock_fetch_refuted :
+  let look : N -> option N := fun n => Some (n + 100) in
+  fs_units (frun true look (finit [1; 2]) [SUnit 0; SUnit 1; SUnit 0; SUnit 1]) = [UDone 1 (Some 101); UDone 2 None] /\
+  fs_units (frun true look (finit [3]) [SExtTake; SUnit 0; SExtRelease; SUnit 0]) = [UDone 3 None] /\
+  fs_units (frun false look (finit [3]) [SExtTake; SUnit 0; SExtRelease; SUnit 0; SUnit 0]) = [UDone 3 (Some 103)] /\
+  (forall n, fs_units (frun true look (finit [n]) [SUnit 0; SUnit 0]) = [UDone n (look n)]).
+Proof.
+  exact (conj (proj1 try_lock_refuted) (conj (proj1 try_lock_refuted_ext) (conj (proj2 try_lock_refuted_ext)
+         (try_lock_alone (fun n => Some (n + 100)))))).
+Qed.
+Print Assumptions C10_try_lock_fetch_refuted.
 
 (* non-vacuity: started with a script that rejects prefix 7; the operator edits it to reject prefix 8 and adds a
    second RIB unit; after the reload the new unit filters with the new script, the first one with the old one *)
